@@ -60,3 +60,39 @@ def step(sid, tail, off, cur, level, here, there, ha, ho, sfa, sfo, t12, t22, in
         es, el = R.state_after(cur, lvl, req, True, val[0])
         check(srv.state.session == es and srv.state.security_access_level == el, "suppressed positive reply did not change the state as ISO defines")
     return done()
+
+
+def seed_key(right_key, key_tail, pre_request, spr, ints, bools):
+    """seed/key sequencing (ISO 14229-1 SecurityAccess): sendKey is answered positively iff it carries the key belonging to the
+    seed handed out by the immediately preceding requestSeed; only that positive reply sets the security level; a sendKey
+    without a pending seed gets requestSequenceError, a wrong key invalidKey."""
+    from gallia.services.uds.core.constants import UDSIsoServices
+
+    draws = Draws(ints, bools)
+    NDRNG.small_bytes = False
+    try:
+        model = two_session_model(0x27, 1, True, True, True, True, 1, 1, True, True)
+        srv = make_server(model, (), draws, session=1, level=None)
+        with Patched(draws):
+            seed = b""
+            if pre_request:
+                r = handle(srv, bytes([0x27, 0x01]))
+                check(r is not None and r[0] == 0x67 and r[1] == 0x01, "requestSeed of a supported level not answered positively")
+                seed = r[2:]
+                check(srv.state.security_access_level is None, "requestSeed changed the security level")
+            key = seed if right_key else seed + key_tail
+            reply = handle(srv, bytes([0x27, 0x02 + (0x80 if spr else 0)]) + key)
+    except Vacuous:
+        return True
+    if len(key) == 0:
+        return done()  # an empty key is not a well-formed sendKey request (format rule)
+    if not pre_request:
+        check(reply == bytes([0x7F, 0x27, 0x24]), "sendKey without a pending seed must be answered with requestSequenceError")
+        check(srv.state.security_access_level is None, "security level changed without a positive reply")
+    elif right_key:
+        check(reply == (None if spr else bytes([0x67, 0x02])), "the right key was not accepted (or the suppress bit not honoured)")
+        check(srv.state.security_access_level == 1, "positive sendKey reply did not set the security level")
+    else:
+        check(reply == bytes([0x7F, 0x27, 0x35]), "a wrong key must be answered with invalidKey")
+        check(srv.state.security_access_level is None, "security level changed on a negative reply")
+    return done()
